@@ -312,7 +312,7 @@ def hyp_histories(draw, tier):
 @st.composite
 def hyp_routes(draw, tier):
     typed = draw(st.sampled_from([False, False, True]))
-    case = draw(gen_ops.histories(typed=typed, max_ops=8, max_nodes=14, kinds=["add", "add_node", "copy_to", "move", "set_data", "remove"]))
+    case = draw(gen_ops.histories(typed=typed, max_ops=8, max_nodes=14, kinds=["add", "add_node", "copy_to", "move", "set_data", "remove"], big=(20, 41)))
     case["pick"] = draw(st.integers(0, 50))
     if draw(st.sampled_from([0, 0, 1])):
         case["flavour"] = draw(st.sampled_from(["int", "obj_sub", "obj_cb"]))
